@@ -16,6 +16,9 @@ import (
 	"sort"
 	"strings"
 
+	"github.com/golang/protobuf/ptypes/empty"
+	"github.com/massnetorg/mass-core/blockchain"
+
 	"github.com/massnetorg/mass-core/massutil"
 	"github.com/massnetorg/mass-core/txscript"
 	"github.com/massnetorg/mass-core/wire"
@@ -220,12 +223,140 @@ func asciiOnly(ss ...string) bool {
 	return true
 }
 
+// addrClass: what massutil.DecodeAddress says about a string (the [addr_class] of coq/Api/Validate.v)
+func addrClass(s string) (cls string) {
+	defer func() {
+		if r := recover(); r != nil {
+			cls = "E"
+		}
+	}()
+	a, err := massutil.DecodeAddress(s, config.ChainParams)
+	if err != nil || a == nil {
+		return "E"
+	}
+	switch t := a.(type) {
+	case *massutil.AddressWitnessScriptHash:
+		return fmt.Sprintf("W%d.%d", t.WitnessVersion(), t.WitnessExtendVersion())
+	case *massutil.AddressPubKeyHash:
+		return "P"
+	case *massutil.AddressBindingTarget:
+		return "T"
+	}
+	return fmt.Sprintf("O%d", len(a.ScriptAddress()))
+}
+
+// second renders the "$" section: codec answers for the given strings / payloads and the node-side facts
+func second(wd *World, addrs []string, pays [][]byte, blockAt int64, rewardAt int64, rows []string) []string {
+	out := []string{"$"}
+	seen := map[string]bool{}
+	var al []string
+	for _, a := range addrs {
+		for _, v := range []string{a, strings.TrimSpace(a)} {
+			if !seen[v] {
+				seen[v] = true
+				al = append(al, v)
+			}
+		}
+	}
+	out = append(out, fmt.Sprint(len(al)))
+	for _, a := range al {
+		out = append(out, hx(a), addrClass(a))
+	}
+	out = append(out, fmt.Sprint(len(pays)))
+	for _, raw := range pays {
+		pl := blockchain.DecodePayload(raw)
+		out = append(out, hx(string(raw)), b01(pl != nil && pl.Method == blockchain.BindPoolCoinbase))
+	}
+	chain := wd.w.WM.VerifServer().Blockchain()
+	best := chain.BestBlockHeight()
+	out = append(out, fmt.Sprint(best))
+	blk := "0"
+	if blockAt >= 0 {
+		if _, err := chain.GetBlockByHeight(uint64(blockAt)); err == nil {
+			blk = "1"
+		}
+	}
+	out = append(out, blk)
+	rew := "-"
+	if rewardAt >= 0 {
+		h := uint64(rewardAt)
+		if h == 0 {
+			h = best
+		}
+		if b, err := chain.GetBlockByHeight(h); err == nil {
+			if cb, err := b.Tx(0); err == nil {
+				pl := blockchain.NewCoinbasePayload()
+				if pl.SetBytes(cb.MsgTx().Payload) == nil {
+					rew = fmt.Sprintf("%d,%d", pl.NumStakingReward(), len(cb.MsgTx().TxOut))
+				}
+			}
+		}
+	}
+	out = append(out, rew)
+	if rows == nil {
+		rows = []string{"0"}
+	}
+	out = append(out, rows...)
+	// has the keystore cache lost the keystore that is still selected? (asked the way the path asks)
+	ev := "0"
+	func() {
+		defer func() {
+			if r := recover(); r != nil {
+				ev = "1"
+			}
+		}()
+		wd.ksmgr().GetManagedAddressByScriptHashInCurrent(make([]byte, 32))
+	}()
+	return append(out, ev)
+}
+
+// lagRows: the binding-history row of the deposit of scenario lagging-reorg, as coq/Api/Panic.v [bind_row] reads it:
+// the recorded output index, and the transaction the node NOW returns for the recorded (height, location)
+func lagRows(wd *World) []string {
+	l := wd.lag
+	// with unconfirmed binding deposits in the wallet the API meets their rows first (and gives up on an unmined
+	// parent: ErrAPIQueryDataFailed): the single row rendered here is the whole story only without them
+	if l == nil || !l.sameLoc || wd.lagDirty || len(wd.ws) == 0 || wd.w.WM.CurrentWallet() != wd.ws[0].id || len(wd.pend) > 0 {
+		return nil // (another wallet may have been selected by an earlier request of the instance)
+	}
+	// has the wallet followed the node in the meantime? then the row is gone (or points to the new chain)
+	if h, err := wd.w.WM.SyncedTo(); err != nil || h != l.height+1 {
+		return nil
+	}
+	chain := wd.w.WM.VerifServer().Blockchain()
+	row := []string{"1", "1", "1", "0", "1", fmt.Sprint(len(l.newTx.TxOut))}
+	for _, o := range l.newTx.TxOut {
+		if pks, err := utils.ParsePkScript(o.PkScript, config.ChainParams); err != nil {
+			row = append(row, "-")
+		} else {
+			row = append(row, b01(pks.IsBinding()))
+		}
+	}
+	row = append(row, fmt.Sprint(l.oldTx.TxOut[1].Value), "0", fmt.Sprint(len(l.newTx.TxIn)))
+	for _, in := range l.newTx.TxIn {
+		prev := "-"
+		ok := "0"
+		if list, err := chain.GetTransactionInDB(&in.PreviousOutPoint.Hash); err == nil && len(list) > 0 {
+			ptx := list[len(list)-1].Tx
+			prev = fmt.Sprint(len(ptx.TxOut))
+			if int(in.PreviousOutPoint.Index) < len(ptx.TxOut) {
+				if _, err := utils.ParsePkScript(ptx.TxOut[in.PreviousOutPoint.Index].PkScript, config.ChainParams); err == nil {
+					ok = "1"
+				}
+			}
+		}
+		row = append(row, prev, fmt.Sprint(in.PreviousOutPoint.Index), "0", ok)
+	}
+	return row
+}
+
 // modelLine returns the R line of a case, or "" when the model has nothing to say about it.
 func modelLine(wd *World, id string, g gcase) string {
 	cur := wd.w.WM.CurrentWallet() != ""
 	head := []string{"R", id, g.method, b01(cur), b01(wd.w.H.VerifTaskChanReady())}
 	var args []string
 	var ops []opk
+	var sec []string // the "$" section (second group)
 	switch r := g.req.(type) {
 	case *pb.UseWalletRequest:
 		args = []string{hx(r.WalletId)}
@@ -243,6 +374,7 @@ func modelLine(wd *World, id string, g gcase) string {
 		args = []string{hx(r.Passphrase), hx(r.Remarks), fmt.Sprint(r.BitSize)}
 	case *pb.ValidateAddressRequest:
 		args = []string{hx(r.Address)}
+		sec = second(wd, []string{r.Address}, nil, -1, -1, nil)
 	case *pb.GetAddressBalanceRequest:
 		args = append([]string{fmt.Sprint(r.RequiredConfirmations)}, strList(r.Addresses)...)
 	case *pb.GetWalletBalanceRequest:
@@ -282,14 +414,89 @@ func modelLine(wd *World, id string, g gcase) string {
 		if !asciiOnly(ks...) {
 			return ""
 		}
+		if !asciiOnly(r.FromAddress, r.ChangeAddress) {
+			return ""
+		}
 		args = append([]string{fmt.Sprint(r.LockTime), hx(r.Fee), hx(r.FromAddress), hx(r.ChangeAddress)}, sortedMap(r.Amounts)...)
+		sec = second(wd, []string{r.FromAddress, r.ChangeAddress}, nil, -1, -1, nil)
 	case *pb.CreateStakingTransactionRequest:
 		args = []string{hx(r.FromAddress), hx(r.StakingAddress), hx(r.Amount), fmt.Sprint(r.FrozenPeriod), hx(r.Fee)}
+		sec = second(wd, []string{r.FromAddress, r.StakingAddress}, nil, -1, -1, nil)
+	case *pb.CreateBindingTransactionRequest:
+		args = []string{hx(r.FromAddress), hx(r.Fee), fmt.Sprint(len(r.Outputs))}
+		as := []string{r.FromAddress}
+		for _, o := range r.Outputs {
+			args = append(args, hx(o.HolderAddress), hx(o.BindingAddress), hx(o.Amount))
+			as = append(as, o.HolderAddress, o.BindingAddress)
+		}
+		sec = second(wd, as, nil, -1, -1, nil)
+	case *pb.CreatePoolPkCoinbaseTransactionRequest:
+		if !asciiOnly(r.FromAddress) {
+			return ""
+		}
+		args = []string{hx(r.FromAddress), hx(r.Payload)}
+		var pays [][]byte
+		if raw, err := hex.DecodeString(r.Payload); err == nil {
+			pays = append(pays, raw)
+		}
+		sec = second(wd, []string{r.FromAddress}, pays, -1, -1, nil)
+	case *pb.GetStakingHistoryRequest:
+		args = []string{hx(r.Type)}
+		sec = second(wd, nil, nil, -1, -1, nil)
+	case *pb.GetBindingHistoryRequest:
+		args = []string{hx(r.Type)}
+		rows := lagRows(wd)
+		if wd.lag != nil && rows == nil && cur {
+			return "" // the rows of this state are not rendered (see lagRows): nothing to compare
+		}
+		sec = second(wd, nil, nil, -1, -1, rows)
+	case *pb.SendRawTransactionRequest:
+		raw, err := hexDecode(r.Hex)
+		var tx wire.MsgTx
+		args = []string{hx(r.Hex), b01(err == nil && len(r.Hex) > 0 && tx.SetBytes(raw, wire.Packet) == nil)}
+	case *pb.GetNetworkBindingRequest:
+		args = []string{fmt.Sprint(r.Height)}
+	case *pb.CheckPoolPkCoinbaseRequest:
+		args = strList(r.PoolPubkeys)
+	case *pb.CheckTargetBindingRequest:
+		if !asciiOnly(r.Targets...) {
+			return ""
+		}
+		args = strList(r.Targets)
+		sec = second(wd, r.Targets, nil, -1, -1, nil)
+	case *pb.GetBlockByHeightRequest:
+		if r.Height > 1<<62 {
+			return ""
+		}
+		args = []string{fmt.Sprint(r.Height)}
+		sec = second(wd, nil, nil, int64(r.Height), -1, nil)
+	case *pb.GetBlockStakingRewardRequest:
+		if r.Height > 1<<62 {
+			args = []string{fmt.Sprint(r.Height)}
+			sec = second(wd, nil, nil, -1, -1, nil)
+		} else {
+			args = []string{fmt.Sprint(r.Height)}
+			sec = second(wd, nil, nil, -1, int64(r.Height), nil)
+		}
+	case *empty.Empty:
+		switch g.method {
+		case "GetBestBlock":
+			sec = second(wd, nil, nil, int64(wd.w.WM.VerifServer().Blockchain().BestBlockHeight()), -1, nil)
+		case "Wallets":
+		default:
+			return ""
+		}
 	case *pb.GetTransactionFeeRequest:
 		var ins []string
 		ins, ops = pbInputs(r.Inputs, false)
 		args = append([]string{b01(r.HasBinding)}, sortedMap(r.Amounts)...)
 		args = append(args, ins...)
+		var ks []string
+		for k := range r.Amounts {
+			ks = append(ks, k)
+		}
+		sort.Strings(ks)
+		sec = second(wd, ks, nil, -1, -1, nil)
 	case *pb.SignRawTransactionRequest:
 		args = []string{hx(r.RawTx), hx(r.Passphrase), hx(r.Flags)}
 		raw, err := hexDecode(r.RawTx)
@@ -331,5 +538,6 @@ func modelLine(wd *World, id string, g gcase) string {
 	line := append(head, args...)
 	line = append(line, "#")
 	line = append(line, tables(wd, ops)...)
+	line = append(line, sec...)
 	return strings.Join(line, "\t")
 }
